@@ -460,6 +460,8 @@ type Contract struct {
 	Iface    bool
 	// represents clauses (model field coupling) assumed at entry and re-established at exit
 	Represents []*Clause
+	// establishes clauses: model fields of a newly created object (result), set at exit only
+	Establishes []*Clause
 }
 
 type SpecFn struct {
@@ -529,7 +531,7 @@ type Macro struct {
 }
 
 var clauseKw = map[string]bool{"requires": true, "ensures": true, "modifies": true, "loop": true, "panics_if": true,
-	"property": true, "option": true, "represents": true, "trusted": true, "pure": true, "inline": true}
+	"property": true, "option": true, "represents": true, "establishes": true, "trusted": true, "pure": true, "inline": true}
 
 // parseSpecFile parses the //@ lines of a contract file.
 func parseSpecFile(path, text, pkg string, trusted bool) (*SpecFile, error) {
@@ -631,7 +633,7 @@ func parseSpecFile(path, text, pkg string, trusted bool) (*SpecFile, error) {
 			if cur != nil {
 				cur.Inline = true
 			}
-		case "requires", "ensures", "panics_if", "represents":
+		case "requires", "ensures", "panics_if", "represents", "establishes":
 			if cur == nil {
 				return nil, fmt.Errorf("%s: clause outside func", loc)
 			}
@@ -650,6 +652,8 @@ func parseSpecFile(path, text, pkg string, trusted bool) (*SpecFile, error) {
 				cur.PanicsIf = append(cur.PanicsIf, c)
 			case "represents":
 				cur.Represents = append(cur.Represents, c)
+			case "establishes":
+				cur.Establishes = append(cur.Establishes, c)
 			}
 		case "modifies":
 			if cur == nil {
